@@ -1,8 +1,7 @@
-import re
 import itertools
 from enum import Enum
 
-from flamapy.core.models.ast import ASTOperation
+from flamapy.core.models.ast import ASTOperation, Node
 from flamapy.core.transformations import ModelToText
 from flamapy.metamodels.fm_metamodel.models import FeatureModel, Feature, Relation, Constraint
 
@@ -153,25 +152,36 @@ def get_cardinality_formula(relation: Relation) -> str:
            f'({parent} {PLWriter.LogicConnective.IMPLIES} ({formula_or_ctc}))'
 
 
+PL_OPERATORS = {
+    ASTOperation.XOR: PLWriter.LogicConnective.XOR.value,
+    ASTOperation.NOT: PLWriter.LogicConnective.NOT.value,
+    ASTOperation.AND: PLWriter.LogicConnective.AND.value,
+    ASTOperation.OR: PLWriter.LogicConnective.OR.value,
+    ASTOperation.IMPLIES: PLWriter.LogicConnective.IMPLIES.value,
+    ASTOperation.EQUIVALENCE: PLWriter.LogicConnective.EQUIVALENCE.value,
+    ASTOperation.REQUIRES: PLWriter.LogicConnective.IMPLIES.value,
+    ASTOperation.EXCLUDES: (f'{PLWriter.LogicConnective.IMPLIES.value} '
+                            f'{PLWriter.LogicConnective.NOT.value}'),
+}
+
+
 def get_constraint_formula(ctc: Constraint) -> str:
-    constraint_str = ctc.ast.pretty_str()
-    constraint_str = re.sub(rf"\b{ASTOperation.XOR.value}\b",
-                            PLWriter.LogicConnective.XOR.value, constraint_str)
-    constraint_str = re.sub(rf"\b{ASTOperation.NOT.value}\b",
-                            PLWriter.LogicConnective.NOT.value, constraint_str)
-    constraint_str = re.sub(rf"\b{ASTOperation.AND.value}\b",
-                            PLWriter.LogicConnective.AND.value, constraint_str)
-    constraint_str = re.sub(rf"\b{ASTOperation.OR.value}\b",
-                            PLWriter.LogicConnective.OR.value, constraint_str)
-    constraint_str = re.sub(rf"\b{ASTOperation.IMPLIES.value}\b",
-                            PLWriter.LogicConnective.IMPLIES.value, constraint_str)
-    constraint_str = re.sub(rf"\b{ASTOperation.EQUIVALENCE.value}\b",
-                            PLWriter.LogicConnective.EQUIVALENCE.value, constraint_str)
-    constraint_str = re.sub(rf"\b{ASTOperation.REQUIRES.value}\b",
-                            PLWriter.LogicConnective.IMPLIES.value, constraint_str)
-    constraint_str = re.sub(
-        rf"\b{ASTOperation.EXCLUDES.value}\b",
-        f'{PLWriter.LogicConnective.IMPLIES.value} {PLWriter.LogicConnective.NOT.value}',
-        constraint_str
-    )
-    return constraint_str
+    return _get_node_formula(ctc.ast.root)
+
+
+def _get_node_formula(node: Node) -> str:
+    """Serialize the expression tree itself (same layout as Node.pretty_str), so that operator
+    spellings are never looked for inside feature names."""
+    if not node.is_op() or node.data not in PL_OPERATORS:
+        return node.pretty_str()
+    operator = PL_OPERATORS[node.data]
+    left = _get_operand_formula(node.left) if node.left is not None else ''
+    right = _get_operand_formula(node.right) if node.right is not None else ''
+    if node.is_unary_op():
+        return f'{operator} {left}'
+    return f'{left} {operator} {right}'
+
+
+def _get_operand_formula(node: Node) -> str:
+    result = _get_node_formula(node)
+    return f'({result})' if node.is_op() and node.is_binary_op() else result
